@@ -85,10 +85,10 @@ Definition e7_cfg : @abf_cfg Q :=
 Definition e7_hist := [inp (1#2) (2#1) 0 0 false; inp (1#2) (2#1) 0 0 false; inp0 (1#2) (2#1) 0 0 false;
                        inp0 (1#2) (2#1) 0 0 false; inp (1#2) (2#1) 0 0 false; inp (1#2) (2#1) 0 0 false].
 
-(* W7 (known, sample:hideJacobian-applyBias-switched): hideJacobian, lagged forces, Jacobian force 3, engine force
-   1, applyBias on at step 0 and switched off before step 1: the force measured for step 0 contains the
-   compensation -3, but collect_cvc_total_forces looks at f_cv_apply_force at step 1 and does not add fj:
-   the sample of step 0 is recorded as -2 instead of 1. *)
+(* W7: hideJacobian, lagged forces, Jacobian force 3, engine force 1, applyBias on at step 0 and switched off
+   before step 1: the force measured for step 0 contains the compensation -3, which the variable remembers
+   (prev_Jacobian_force_compensated): both samples are 1.
+   (Before fix 5b106d10 collect_cvc_total_forces looked at f_cv_apply_force at step 1: sample -2 instead of 1.) *)
 Definition w7_cfg := cfg1 0 false false false true false.
 Definition w7_hist := [inp (1#2) 1 0 (3#1) false; inp0 (1#2) 1 0 (3#1) false; inp0 (1#2) 1 0 (3#1) false].
 
@@ -144,9 +144,9 @@ Lemma e7_values :
   Qeq_bool (spec_sum e7_cfg e7_hist [0%Z] 0) (-(10#1)) = true.
 Proof. vm_compute. repeat split; reflexivity. Qed.
 
-Lemma w7_refutes :
+Lemma w7_values :
   stored_cnt w7_cfg w7_hist [0%Z] = 2%Z /\ spec_cnt w7_cfg w7_hist [0%Z] = 2%Z /\
-  Qeq_bool (stored_sum w7_cfg w7_hist [0%Z] 0) 1 = true /\
+  Qeq_bool (stored_sum w7_cfg w7_hist [0%Z] 0) (-(2#1)) = true /\
   Qeq_bool (spec_sum w7_cfg w7_hist [0%Z] 0) (-(2#1)) = true.
 Proof. vm_compute. repeat split; reflexivity. Qed.
 
